@@ -541,6 +541,10 @@ inline void ResumeHook(u64 fiber_id, u64 time_ns) {
       char d[200];
       g_ctx->Desc(d, sizeof d);
       std::fprintf(stderr, "INCONCLUSIVE resume budget exceeded: %s\n", d);
+      // Recorded for the driver, which re-runs this (deterministic) case with a ten times larger budget: only a case
+      // that does not finish then either is reported (as a livelock); otherwise it stays inconclusive.
+      g_ctx->Fail("resume-budget", "", "the scenario did not finish within %llu fiber resumes on this schedule",
+                  (unsigned long long)g_cfg.budget);
     }
     ChildExit(78);
   }
